@@ -273,7 +273,7 @@ def check(prop, tier, seed):
 
     # vacuity
     for r in results:
-        if not r["out_of_reach"] and not r["obligations"]:
+        if not r["out_of_reach"] and (not r["obligations"] or not r.get("covers")):
             print(f"CHECKER-BROKEN property={prop}: {r['contract']} {r['binding']} generated zero obligations")
             return 3
 
